@@ -24,8 +24,7 @@ Lemma rdf_session_create stamp s : ss_buffer s = false -> ss_records s <> [] ->
   rdf_session stamp [] s = rdf_header_text stamp ++ concat (ss_records s).
 Proof.
   intros Hb Hr. unfold rdf_session, session_start, rdf_writes_header. rewrite Hb.
-  assert (E : (if ss_append s then @nil ascii else []) = []) by (destruct (ss_append s); reflexivity). rewrite E.
-  cbn [nonempty orb negb app]. rewrite orb_true_r. destruct (ss_records s); [contradiction | reflexivity].
+  destruct (ss_append s); cbn [nonempty orb negb app]; destruct (ss_records s); try contradiction; reflexivity.
 Qed.
 
 Lemma rdf_appends stamp rest : forall file, file <> [] ->
